@@ -1,19 +1,19 @@
 """C09 - the C extension and the pure-Python fallback are interchangeable."""
 from .. import engine
-from ..rules import convert, changed, pytaint, registry, sizes
+from ..rules import convert, changed, pytaint, registry, sizes, slotsig
 
 
 def tu_check(tu):
     c = changed.analyse_conv(tu)
     return dict(findings=c["findings"], stats=c["stats"], dtype=convert.dtype_row(tu),
                 modfuncs=registry.module_functions(tu), sizes=sizes.c_facts(tu),
-                exc=sizes.c_read_translation(tu))
+                exc=sizes.c_read_translation(tu), slots=slotsig.analyse_tu(tu))
 
 
 def run(tier="quick", seed=0, use_cache=True):
     res = engine.Result("C09")
     res.rules = ["PY-TAINT", "CONV-BEFORE-MUT", "GROW-ROLLBACK", "READ-ABSENCE",
-                 "DTYPE-TABLE", "FAMILY-REG", "SIZE-WIRING", "SPLIT-POINT", "PY-NATIVE-CALL"]
+                 "DTYPE-TABLE", "FAMILY-REG", "SIZE-WIRING", "SPLIT-POINT", "PY-NATIVE-CALL", "SLOT-SIG"]
     res.explanation = (
         "Agreement of the two implementations on the structural points the "
         "property names: (1) conversion discipline - Python: taint analysis of "
@@ -28,7 +28,11 @@ def run(tier="quick", seed=0, use_cache=True):
         "registries, per-family inventory of module functions, split "
         "thresholds (leaf > max_leaf_size, interior > max_internal_size, root "
         ">= 2*max_internal_size) and split points (len/2) in the five "
-        "splitting functions. Equality of results, shapes and pickles over "
+        "splitting functions; (3) SLOT-SIG - every function cast into a "
+        "type-object slot returns the class of value the slot's type promises "
+        "(a narrower integer makes the error return unrecognisable: "
+        "SystemError in place of the function's exception, where the Python "
+        "class raises the original one). Equality of results, shapes and pickles over "
         "call histories is not decided.")
     res.assumptions = ["public method tables of the C types define the shared API"]
     out = engine.map_tus("sa.props.C09", "tu_check", use_cache=use_cache)
@@ -37,6 +41,7 @@ def run(tier="quick", seed=0, use_cache=True):
         res.findings.extend(r["findings"], fam)
         res.findings.extend(r["sizes"]["findings"], fam)
         res.findings.extend(r["exc"]["findings"], fam)
+        res.findings.extend(r["slots"]["findings"], fam)
         for k, v in r["stats"].items():
             if isinstance(v, int):
                 tot[k] = tot.get(k, 0) + v
@@ -45,6 +50,8 @@ def run(tier="quick", seed=0, use_cache=True):
     res.count("CONV-BEFORE-MUT", tot["conv_status_sites"])
     res.count("GROW-ROLLBACK", tot["grow_first_leaf_sites"])
     res.count("READ-ABSENCE", sum(r["exc"]["n"] for r in out.values()))
+    res.floor("functions cast into type-object slots (OO)", out["OO"]["slots"]["n"], 45)
+    res.count("SLOT-SIG", sum(r["slots"]["n"] for r in out.values()))
     res.count("SIZE-WIRING", sum(r["sizes"]["n"] for r in out.values()))
     convert.check_dtype_table(res, {f: r["dtype"] for f, r in out.items()})
     registry.check(res, {f: r["dtype"] for f, r in out.items()},
